@@ -48,7 +48,7 @@ _c('HANDLE', 'Debug ErrorFile LstFile MacProFile MacroFile ShareFile PrgFile',
 _c('EXIT', 'FirstDefine LineInfoRoot asminclist.c:Root asminclist.c:Curr asmpars.c:FirstLocHandle PatchList PatchLast '
    'ExportList ExportLast asmerr.c:pExpectErrors asmfnums.c:FirstFile asmfnums.c:FileCount',
    'list emptied at the end of every pass (clean-up in the pass loop / AsmErrPassExit / CloseFile)')
-_c('BALANCED', 'IfAsm as.c:MacroNestLevel CurrIncludeLevel asmpars.c:DoRefs JmpErrors as.c:LineZ asmallg.c:ONOFFList',
+_c('BALANCED', 'IfAsm CurrIncludeLevel asmpars.c:DoRefs JmpErrors',
    'every write in the body is one half of an open/close pair; an unbalanced pass ends with an error and no pass follows')
 _c('CARRIED', 'asmpars.c:FirstSymbol asmpars.c:FirstLocSymbol asmmac.c:MacroRoot StructRoot asmpars.c:FirstFunction '
    'FirstSection asmpars.c:FirstStack asmpars.c:MomSection MomSectionHandle TmpSymLog',
@@ -58,6 +58,10 @@ _c('TARGET', 'Grans ListGrans SegInits SegLimits PCs SegChunks StructSaveSeg Mom
    'per-segment target parameters: every element that is read is set by the active SwitchTo_* (interface rule) or '
    'by SetNSeg on first use of the segment')
 
+_c('REPORT', 'as.c:MacroNestLevel as.c:LineZ',
+   'only feeds the listing annotation "(MACRO-n)" / the paging of the help screen, never code, symbols or diagnostics')
+_c('COUNTED', 'asmallg.c:ONOFFList',
+   'only the first ONOFFCnt entries are valid and ONOFFCnt is cut back by ClearONOFF() whenever a target is left')
 _c('GENLINE', 'AdrCnt motpseudo.c:M16Turn',
    'scratch of one instruction: assigned by the operand decoder / pseudo-op decoder before each use')
 _c('GUARDED', 'StartAdr', 'read only when StartAdrPresent is set, which is reset at every pass start')
@@ -75,6 +79,22 @@ def phase_kills(facts, P):
         KF |= E.kill(P, f)
     for f in ph['FILE_EXIT'] | ph['PASS_EXIT']:
         KX |= E.kill(P, f)
+    # assignments made by AssembleFile() itself before the line loop starts
+    af = ph['AssembleFile']
+    h, s0, body = ph['loop']
+    pf = ph['pf']
+    for b, i, ln, ex in af.elems():
+        ks = E.direct_kills(P, af, ex)
+        if not ks:
+            continue
+        def is_this(e2, ex=ex):
+            return e2 is ex
+        dom_pass, _ = af.guarded(pf[0], pf[1], lambda l: False, is_this, start=s0)
+        dom_file, _ = af.guarded(pf[0], pf[1], lambda l: False, is_this)
+        if dom_pass and b in body:
+            KP |= ks
+        elif dom_file:
+            KF |= ks
     return ph, KP, KF, KX
 
 
@@ -126,11 +146,12 @@ def core_reset(chk, facts, rule, scope):
             if cls[0] == 'GUARDED' and 'StartAdrPresent' not in KP:
                 ok = False
                 why = 'its guard flag StartAdrPresent is no longer reset per pass'
-            if cls[0] == 'CARRIED' and scope == 'file' and k not in (KF | KX | KP):
+            if cls[0] in ('CARRIED', 'BALANCED') and scope == 'file' and k not in (KF | KX | KP):
                 # carried state must at least be cleared per file
                 ok = k in file_cleared(facts, P, ph)
                 why = 'carried between passes; cleared per file' if ok else \
-                    'carried between passes but never cleared between files'
+                    ('%s is carried from pass to pass by design (%s) but is never re-initialised between files: the '
+                     'next source file starts with what the previous one left behind' % (k, cls[0]))
             if ok:
                 chk.exception(rule, k, why)
             chk.ob(rule, k, ok, loc, why)
